@@ -98,6 +98,21 @@ var c07Letters = func() []c07Letter {
 			g.ClosePathEndPath()
 			return nil
 		}},
+		// runs longer than one opcode can count (32 lines, 16 curves), and runs between 17 and 32
+		c07Letter{"long runs", func(g *generate.Generator, set int) error {
+			g.StartPath(2, -10, -10)
+			for i := 0; i < 20; i++ {
+				g.RelLineTo(1, float32(i%2))
+			}
+			for i := 0; i < 35; i++ {
+				g.AbsLineTo(10-float32(i)*0.5, c07v(set, 0.25, 0.3)*float32(i%3))
+			}
+			for i := 0; i < 18; i++ {
+				g.RelCubeTo(0.5, -1, 1, 1, 1.5, 0)
+			}
+			g.ClosePathEndPath()
+			return nil
+		}},
 	)
 	return ls
 }()
@@ -132,7 +147,7 @@ func init() {
 	mc.Register(&mc.Check{
 		ID:    "C07",
 		Level: "model_checking",
-		Rule: fmt.Sprintf("engine S: every history of <=5 (thorough <=6) letters over a %d-letter alphabet (SetCSel/SetNSel at {0,9,10,62,63} and at arguments >= 64 (74, 201), incrementing and non-incrementing register writes, CSel()/NSel() read-backs, Generator helpers SetGradient (2 and 3 stops), SetLinearGradient, SetCircularGradient, SetEllipticalGradient, SetPathData, a probe path), run in lock step through Generator->Renderer and Generator->Encoder->Decode->Renderer (histories <=3 also through DestinationLogger), two argument sets (dyadic, non-dyadic). ", nl) +
+		Rule: fmt.Sprintf("engine S: every history of <=5 (thorough <=6) letters over a %d-letter alphabet (SetCSel/SetNSel at {0,9,10,62,63} and at arguments >= 64 (74, 201), incrementing and non-incrementing register writes, CSel()/NSel() read-backs, Generator helpers SetGradient (2 and 3 stops), SetLinearGradient, SetCircularGradient, SetEllipticalGradient, SetPathData, a probe path, a path with runs of 20 and 35 lines and 18 curves), run in lock step through Generator->Renderer and Generator->Encoder->Decode->Renderer (histories <=3 also through DestinationLogger), two argument sets (dyadic, non-dyadic). ", nl) +
 			"After every call the Encoder's and the Renderer's CSel()/NSel() must agree modulo 64 with each other and with the specification VM; helper return values must agree; at the end both recording rasterisers must hold the same calls and paints (bit-equal for the dyadic set, within the C01 tolerance otherwise). " +
 			"states = histories executed, transitions = letters executed; non-trivial = history containing a gradient helper or an incrementing write followed by a read-back",
 		Assumptions: []string{"non-dyadic argument set: rasteriser coordinates compared within 2^-17 relative to the raster size, gradient matrices within 2^-19 relative"},
